@@ -189,6 +189,7 @@ PROPS["C04"] = dict(
         dict(name="templates", run="^TestTemplates$", kind="plain", shards=16, guard={"quick": 900, "thorough": 3600}),
         dict(name="native_fuzz", kind="fuzz", fuzz="^FuzzParse$", shards=1, tiers=("thorough",), fuzztime={"thorough": "600s"},
              guard={"thorough": 1200}),
+        dict(name="known_F33", run="^TestKnownF33$", kind="plain", shards=1, guard={"quick": 300, "thorough": 300}),
     ],
     min_class_fraction={"accepted": 0.03, "invalid_utf8": 0.03, "contains_nul": 0.01, "unterminated_string_or_comment": 0.02},
 )
@@ -515,3 +516,8 @@ _amend("C18", "ToHtml returns failures as err, never panics.",
 _amend("C20", "axes: start on a 1/4 grid, size from {1/8,1/4,1/2,1,2,4,3,5,10},",
        "axes: start on a 1/4 grid, size from {1/8,1/4,1/2,1,2,4,3,5,10}, a quarter of them fine grids (start on a 1/1024 grid, size from {1/64,1/256,1/1024,1,1/4,3}: "
        "bounds with many exactly representable decimals),")
+_amend("C04", "thorough adds a native coverage-guided fuzz campaign.",
+       "An input that is slow only because the optimizer evaluates a long-running argument-independent sub-expression while Generate runs (it is parsed at once "
+       "without optimizer and the evaluation of the unoptimized function is what takes the time) is attributed to the open finding F33; its exemplar "
+       "(Generate time of numbers(N).map(i->i).sum() grows with N at constant input length) runs in every tier. thorough adds a native coverage-guided "
+       "fuzz campaign; an input on which the fuzzer loses a worker is judged by an isolated replay.")
